@@ -1,5 +1,5 @@
 #!/bin/bash
-export RUSTUP_TOOLCHAIN="${RUSTUP_TOOLCHAIN:-stable}"   # do not depend on rustup's default-toolchain setting
+. "$(cd "$(dirname "$0")" && pwd)/env.sh"
 # Warm-up for the "dbg" engine of C10 (debug assertions + overflow checks): the check rebuilds it on
 # every run (no-op when fresh); building it in setup keeps the first quick run short.
 cd "$(dirname "$0")/../harness" || exit 0
